@@ -110,7 +110,7 @@ func TestC15(t *testing.T) {
 		}
 	}
 	r.Require("gets_after_install", "gets_without_install", "gets_after_many_installs", "builder_failures", "closes_checked", "updater_created_during_install",
-		"installs_with_failing_cache", "concurrent_gets", "updaters_from_racing_lookups", "interface_typed_updater_gets", "gets_while_failed_build_outstanding", "updater_lifetime_cases", "updaters_created_during_a_poll_of_a_stale_secret")
+		"installs_with_failing_cache", "concurrent_gets", "updaters_from_racing_lookups", "interface_typed_updater_gets", "gets_while_failed_build_outstanding", "updater_lifetime_cases", "installs_going_back", "updaters_created_during_a_poll_of_a_stale_secret")
 	r.Rule("sequential seeded histories over 2 secrets and up to 5 updaters: installs (0..4 between Gets, sometimes with a failing cache write), updater creation (also while an install lands during its initial build), scripted builder failures, Gets; exact expectations per Get on (builder invoked?, with which bytes, value returned, Err, Close counts). Concurrent runs: 8 Get goroutines vs an installer, judged by call/return stamps. Distinct = (event, installs since last Get capped at 3, builder outcome)")
 }
 
@@ -260,8 +260,16 @@ func seqCase(r *evid.Run, idx int) {
 				if current[nme] == "" {
 					continue
 				}
-				ver[nme]++
-				svc.Set(nme, ver[nme], []byte(fmt.Sprintf("%s#%d", nme, ver[nme])))
+				if rng.IntN(4) == 0 && ver[nme] >= 2 {
+					// the operator goes BACK to an earlier version: an install like any other
+					older := uint32(1 + rng.IntN(int(ver[nme]-1)))
+					svc.Set(nme, older, []byte(fmt.Sprintf("%s#%d", nme, older)))
+					r.Count("installs_going_back", 1)
+					trace = append(trace, fmt.Sprintf("re-activate %s#%d", nme, older))
+				} else {
+					ver[nme]++
+					svc.Set(nme, ver[nme], []byte(fmt.Sprintf("%s#%d", nme, ver[nme])))
+				}
 				cacheFail = rng.IntN(5) == 0
 				if cacheFail {
 					r.Count("installs_with_failing_cache", 1)
